@@ -151,13 +151,16 @@ Ltac sweep :=
 (* tactics for fixed-shape getters *)
 
 (* turn every index / slice expression whose bound follows from the context into its value *)
+Lemma cap_mk_skipn v k n : cap {| arr := skipn k (arr v); len := n |} = (cap v - k)%nat.
+Proof. unfold cap. cbn [arr]. apply skipn_length. Qed.
+Ltac bound := rewrite ?cap_mk_skipn; cbn [len]; lia.
 Ltac slices :=
   repeat (first
-    [ match goal with |- context [idx ?s ?i] => rewrite (idx_ok s i) by lia end
-    | match goal with |- context [be16_at ?s ?a] => rewrite (be16_at_ok s a) by lia end
-    | match goal with |- context [be32_at ?s ?a] => rewrite (be32_at_ok s a) by lia end
-    | match goal with |- context [sl ?s ?a ?b] => rewrite (sl_ok s a b) by lia end
-    | match goal with |- context [slfrom ?s ?a] => rewrite (slfrom_ok s a) by lia end ];
+    [ match goal with |- context [idx ?s ?i] => rewrite (idx_ok s i) by bound end
+    | match goal with |- context [be16_at ?s ?a] => rewrite (be16_at_ok s a) by bound end
+    | match goal with |- context [be32_at ?s ?a] => rewrite (be32_at_ok s a) by bound end
+    | match goal with |- context [sl ?s ?a ?b] => rewrite (sl_ok s a b) by bound end
+    | match goal with |- context [slfrom ?s ?a] => rewrite (slfrom_ok s a) by bound end ];
     cbn [bind]);
   cbn [bind].
 
@@ -197,8 +200,7 @@ Ltac sweepc :=
   | |- forall b, b < 256 -> @?c b = true -> @eq N (@?f b) (@?g b) => apply (sweep256c c f g); vm_compute; reflexivity
   end.
 
-Global Hint Unfold known_of IP4_findings_C01 IP4_findings_C02 k_ip4_payload k_ip4_fragment
-  TCP_findings_C01 TCP_findings_C02 k_tcp_words Ether_findings k_ether_payload k_ether_ip : vk.
+Global Hint Unfold known_of Ether_findings k_ether_payload : vk.
 
 (* simplify a hypothesis [known_of fs "Name" v = false] to the arithmetic condition *)
 Ltac simp_known K :=
@@ -216,8 +218,8 @@ Qed.
 (* per-getter tactics *)
 
 Ltac unfold_getter :=
-  autounfold with vg; cbn [calls]; unfold IP4_IHL_n, IP4_TotalLen_n, Ether_HeaderLen_n, Ether_EtherType_n,
-    IP6_PayloadLen_n, HBH_Len_n; unfold rbe16, rbe32, rbyte, rbit, rsl, rfrom, rarr.
+  autounfold with vg; cbn [calls]; unfold Ether_ip; unfold IP4_IHL_n, IP4_TotalLen_n, Ether_HeaderLen_n, Ether_EtherType_n,
+    IP6_PayloadLen_n, HBH_Len_n, TCP_HeaderLen_n, Ether_ip; autounfold with vg; unfold rbe16, rbe32, rbyte, rbit, rsl, rfrom, rarr.
 
 Ltac c01_fixed :=
   intros _; unfold getter_ok; unfold_getter; slices; split; [apply safe_Ok | inside_tac].
